@@ -83,6 +83,7 @@ def runParseOp (inp out : Json) : Json :=
   let panic := jstr (jget out "panic")
   let typedRun := jget out "typedRun"
   let typedOk := jstr (jget typedRun "err") == ""
+  let hiddenEnv := jbool inp "hiddenEnv"
   -- C01: every offered candidate, once accepted, lands in the slot whose completion produced it
   let c01 : List AFail := runs.filterMap (fun r =>
     let v := jstr (jget r "value")
@@ -119,7 +120,7 @@ def runParseOp (inp out : Json) : Json :=
                       detail := s!"{words}: candidate {v} comes from the completion of {m}, but the program ran command {rc} with args {args} (dash at {lad}) flags {(jget run "flags").compress}" })
   -- the hidden helper command is not offered unless its name is being typed
   let c01b : List AFail :=
-    if values.any (fun v => jstr (jget v "value") == "_carapace") && !cur.startsWith "_" then
+    if values.any (fun v => jstr (jget v "value") == "_carapace") && !cur.startsWith "_" && !hiddenEnv then
       [{ prop := "C01", code := "helper_offered", detail := s!"{words}" }] else []
   -- C07: every offered flag name is accepted by the program's parser and sets that very flag
   let c07 : List AFail := runs.filterMap (fun r =>
@@ -157,7 +158,7 @@ def runParseOp (inp out : Json) : Json :=
         let s := jstr (jget v "value")
         if s.startsWith "--" then
           match vis.find? (fun f => f.name == String.ofList (s.toList.drop 2)) with
-          | some f => if f.hidden || f.deprecated then some { prop := "C07", code := "hidden_or_deprecated_offered", detail := s!"{words}: {s}" } else none
+          | some f => if (f.hidden && !hiddenEnv) || f.deprecated then some { prop := "C07", code := "hidden_or_deprecated_offered", detail := s!"{words}: {s}" } else none
           | none => none
         else none)
   -- C07: sub-command names: exactly the visible, non-deprecated children (names and aliases)
@@ -167,14 +168,14 @@ def runParseOp (inp out : Json) : Json :=
       let v := jstr (jget r "value")
       let tag := jstr (jget r "tag")
       let run := jget r "run"
-      if !tag.endsWith "commands" || v == "help" || !typedOk then none
+      if !tag.endsWith "commands" || v == "help" || v == "_carapace" || !typedOk then none
       else
         let rc := jnat run "cmd"
         match cmds[rc]? with
         | some cs =>
           if jstr (jget run "err") != "" then some { prop := "C07", code := "subcommand_not_accepted", detail := s!"{words}: {v}: {jstr (jget run "err")}" }
           else if !(cs.name == v || cs.aliases.contains v) then some { prop := "C07", code := "subcommand_dispatches_elsewhere", detail := s!"{words}: {v} ran {cs.name}" }
-          else if cs.hidden || cs.deprecated then some { prop := "C07", code := "hidden_or_deprecated_subcommand_offered", detail := s!"{words}: {v}" }
+          else if (cs.hidden && !hiddenEnv) || cs.deprecated then some { prop := "C07", code := "hidden_or_deprecated_subcommand_offered", detail := s!"{words}: {v}" }
           else none
         | none => none) ++ (if offeredSubs.eraseDups.length != offeredSubs.length then [{ prop := "C07", code := "subcommand_twice", detail := s!"{offeredSubs}" }] else [])
   -- C07 rule model vs the real offer (current word `-` or `--`, the typed line accepted by the program)
@@ -203,7 +204,7 @@ def runParseOp (inp out : Json) : Json :=
       let states : List FlagState := vis.map (fun f =>
         { fdef := toFlagDef f, hidden := f.hidden, deprecated := f.deprecated, shortDeprecated := f.shortDeprecated,
           changed := changed f.name, repeatable := f.kind == "stringSlice" || f.kind == "count", groups := groupsOf f })
-      let expected := ((states.filter (offered false states)).map (fun st =>
+      let expected := ((states.filter (offered hiddenEnv states)).map (fun st =>
         let n := "--" ++ String.ofList st.fdef.name
         match n.splitOn "." with
         | a :: _ :: _ => a ++ "."
